@@ -126,7 +126,7 @@ class Rational(primitives.Expression):
         return Rational(self.Denominator, self.Numerator).__rmul__(other)
 
     def __pow__(self, other):
-        return Rational(self.Denominator**other, self.Numerator**other)
+        return Rational(self.Numerator**other, self.Denominator**other)
 
     def __getinitargs__(self):
         return (self.Numerator, self.Denominator)
